@@ -128,17 +128,16 @@ pub fn plan(r: &mut Rng, sid: usize) -> Value {
     if r.chance(1, 2) { for z in ["America/Indiana/Indianapolis", "America/Indiana/Knox"] { if !pool.contains(&z) { pool.push(z); } } }
     // hammer sessions: many cheap getter calls from a small set of (zone, instant) pairs on every thread at once - state kept
     // outside the provider lock (a memo of the last answer, say) shows only under this kind of contention
-    if sid % 6 == 4 {
+    if sid % 3 == 1 {
         let zs: Vec<&'static str> = ZONES.iter().cloned().take(12).collect();
         let distinct: Vec<Value> = (0..12).map(|i| { let ns = instant(r); let tz = zs[i % zs.len()];
             match i % 4 { 0 => json!({"op": "CZ.offset", "args": {"ns": ns, "tz": tz}}), 1 => json!({"op": "CZ.get", "args": {"ns": ns, "tz": tz, "f": "hour"}}),
                           _ => json!({"op": "CZ.get", "args": {"ns": ns, "tz": tz, "f": "offsetSeconds"}}) } }).collect();
-        let calls = if n > 8 { 40 } else { 80 };
-        // three pairs with different offsets, read in a tight loop, each thread starting at another pair
-        let pairs: Vec<Value> = ["America/New_York", "Asia/Kolkata", "Australia/Sydney"].iter().map(|tz| json!({"ns": instant(r), "tz": tz})).collect();
-        let ph = Value::Array((0..n).map(|t| { let mut v: Vec<Value> = (0..calls).map(|_| r.pick(&distinct[..]).clone()).collect();
-            for k in 0..4 { let mut it = pairs.clone(); it.rotate_left((t + k) % 3); v.insert((k * calls / 4).min(v.len()), json!({"op": "CZ.offsetLoop", "args": {"items": it, "reps": 300}})); }
-            Value::Array(v) }).collect());
+        // mostly the same getter (offset_nanoseconds) on three (zone, instant) pairs with different offsets: consecutive reads of the
+        // same pair from different threads, with writes for the other pairs in between
+        let pairs: Vec<Value> = ["America/New_York", "Asia/Kolkata", "Australia/Sydney"].iter().map(|tz| json!({"op": "CZ.get", "args": {"ns": instant(r), "tz": tz, "f": "offsetSeconds"}})).collect();
+        let calls = if n > 8 { 250 } else { 500 };
+        let ph = Value::Array((0..n).map(|_| Value::Array((0..calls).map(|_| if r.chance(1, 8) { r.pick(&distinct[..]).clone() } else { r.pick(&pairs[..]).clone() }).collect())).collect());
         return json!({"n": n, "kind": "clean", "phases": [ph]});
     }
     let per = r.range(4, 10) as usize;
